@@ -46,6 +46,7 @@ def run(chk):
     sortmap_tie.tie_run(chk, "sort")
     from areas import swap_tie
     swap_tie.tie_run(chk, "swap")
+    swap_tie.tie_run(chk, "vec2", [t for t in swap_tie.TIE_BY_PROP["C11"] if t.startswith("Cstl.Vec.Tie2.")])
     chk.theorems.update(vlib.audit(swap_tie.THEOREMS["C11"], ["Cstl.Swap.Props"]))
     if c_exe:
         vlib.run_scripts(chk, sort, c_exe, m_exe, sort.corpus(), sort.oracle)
@@ -85,7 +86,7 @@ def run(chk):
         "byte-level cstl_swap is modelled as an exchange of elements through the scratch cell; every width "
         "(1,2,4,8 fast paths; 3,16 memcpy path) is validated by the correspondence check under ASan",
         "C stack depth of the recursive quicksort is not modelled (DESIGN 7.3)",
-        "counts above INT_MAX narrow in search/reverse: outside the property's quantifier",
+        "search computes (i + j) / 2 in C int: beyond 2^30 elements that is signed-overflow undefined behaviour, and counts above INT_MAX are narrowed in search/reverse — outside the property's quantifier (theorems carry count <= 2^30 / 2^31)",
     ])
 
 
